@@ -11,11 +11,11 @@ export CARGO_NET_OFFLINE=true
 git diff -- rust > "$OUT/patch.diff"
 cp tests/seed_demo.rs "$OUT/seed_demo.rs"
 [ -f meta.txt ] && cp meta.txt "$OUT/meta.txt"
-SUITE=$(cargo test --offline --lib 2>&1 | grep "^test result" | head -1)
-DEMO_WITH=$(cargo test --offline --test seed_demo 2>&1 | grep "^test result" | head -1)
+SUITE=$(cargo test --offline --lib 2>&1 | grep "^test result:" | head -1)
+DEMO_WITH=$(cargo test --offline --test seed_demo 2>&1 | grep "^test result:" | head -1)
 # (git stash is shared between the worktrees of one repository: reverse-apply the saved patch instead)
 git apply -R "$OUT/patch.diff"
-DEMO_WITHOUT=$(cargo test --offline --test seed_demo 2>&1 | grep "^test result" | head -1)
+DEMO_WITHOUT=$(cargo test --offline --test seed_demo 2>&1 | grep "^test result:" | head -1)
 git apply "$OUT/patch.diff"
 python3 - "$OUT" "$PROP" "$SUITE" "$DEMO_WITH" "$DEMO_WITHOUT" <<'PY'
 import json, sys, os
